@@ -217,10 +217,7 @@ async fn handle_stream(
         (
             pipe::SimplexDirection::Outgoing,
             Box::new(request_body),
-            Box::new(RequestBodySink {
-                sink: server_sink,
-                failed: false,
-            }),
+            server_sink,
         ),
         (pipe::SimplexDirection::Incoming, server_source, client_sink),
         |_, _| (),
@@ -299,72 +296,6 @@ impl pipe::Source for RequestBody {
 
     fn consume(&mut self, size: usize) -> io::Result<()> {
         self.source.consume(size)
-    }
-}
-
-/// The origin's end of the request body once the head of the response has been passed on.
-/// The origin may refuse the request and close without having read the body. The write that
-/// fails then must stop the body only: the rest of the response is still to be read out of
-/// the origin's connection and relayed, so from then on the body is discarded instead of
-/// failing the pipe. A failure of the origin's or of the client's side still ends the exchange,
-/// and so does the idle timeout of the pipe.
-struct RequestBodySink {
-    sink: Box<dyn pipe::Sink>,
-    /// The origin does not take the body any more
-    failed: bool,
-}
-
-impl RequestBodySink {
-    fn check<T>(&mut self, result: io::Result<T>, discarded: T) -> io::Result<T> {
-        result.or_else(|e| {
-            log_id!(
-                debug,
-                self.sink.id(),
-                "Origin does not take the request body any more: {}",
-                e
-            );
-            self.failed = true;
-            Ok(discarded)
-        })
-    }
-}
-
-#[async_trait]
-impl pipe::Sink for RequestBodySink {
-    fn id(&self) -> log_utils::IdChain<u64> {
-        self.sink.id()
-    }
-
-    fn write(&mut self, data: Bytes) -> io::Result<Bytes> {
-        if self.failed {
-            return Ok(Bytes::new());
-        }
-        let result = self.sink.write(data);
-        self.check(result, Bytes::new())
-    }
-
-    fn eof(&mut self) -> io::Result<()> {
-        if self.failed {
-            return Ok(());
-        }
-        let result = self.sink.eof();
-        self.check(result, ())
-    }
-
-    async fn wait_writable(&mut self) -> io::Result<()> {
-        if self.failed {
-            return Ok(());
-        }
-        let result = self.sink.wait_writable().await;
-        self.check(result, ())
-    }
-
-    async fn flush(&mut self) -> io::Result<()> {
-        if self.failed {
-            return Ok(());
-        }
-        let result = self.sink.flush().await;
-        self.check(result, ())
     }
 }
 
